@@ -66,6 +66,29 @@ thread_local! {
     static CATCH_DEPTH: std::cell::Cell<u32> = const { std::cell::Cell::new(0) };
 }
 
+/// Caps the address space of this process (workers and child executions only, never the supervisor, whose
+/// children include the Miri interpreter). A library change that makes an iterator endless or pre-allocates
+/// from an untrusted bound then ends in a failed allocation (abort, reported as a death of that run and
+/// confirmed in isolation) instead of exhausting the machine. `QSIM_MEM_LIMIT_GB` (default 12, 0 = no limit).
+pub fn limit_memory() {
+    let gb: u64 = std::env::var("QSIM_MEM_LIMIT_GB").ok().and_then(|s| s.parse().ok()).unwrap_or(12);
+    if gb == 0 || cfg!(miri) {
+        return;
+    }
+    #[cfg(all(target_os = "linux", not(miri)))]
+    {
+        extern "C" {
+            fn setrlimit(resource: i32, rlim: *const [u64; 2]) -> i32;
+        }
+        const RLIMIT_AS: i32 = 9;
+        let lim = [gb << 30, gb << 30];
+        // SAFETY: plain libc call with a pointer to two u64 (struct rlimit on 64-bit Linux)
+        unsafe {
+            setrlimit(RLIMIT_AS, &lim);
+        }
+    }
+}
+
 /// Installs a panic hook that records message and location instead of printing them.
 pub fn install_quiet_panic_hook() {
     std::panic::set_hook(Box::new(|info| {
